@@ -31,6 +31,7 @@ def sat(name, family, quick, thorough, tags, shard=400):
 PROPS = {
     "C01": dict(theorems=["C01_success_means_valid", "C01_engine_computes_semantics"], cone=ENGINE_CONE + ["Proofs/Indep.v", "Proofs/SatP.v"], rule=ENGINE_RULE,
                 families=[eng("engine", "C01", 1200, 20000, ["sat", "nil", "panic"]),
+                          eng("siblings", "C01s", 700, 12000, ["sat", "nil", "panic"]),   # wide structs: catching primitives next to slices and structs with several tests of their own
                           eng("accepted", "C01d", 700, 12000, ["sat", "nil", "panic"]),   # schemas and inputs re-drawn until the implementation reports no issues; values the schema places itself (Default, Catch)
                           sat("helpers", "helpers", 600, 8000, ["tests"], shard=300)]),   # a struct test lost by a derived schema is a skipped constraint
     "C02": dict(theorems=["C02_engine_computes_semantics", "C02_node_refines", "C02_all_failing_tests_reported", "C02_test_issues_at_own_path", "C02_missing_required_is_one_issue", "C02_coerce_failure_is_one_issue", "C02_struct_not_a_record", "C02_nil_iff_no_violation"], cone=ENGINE_CONE + ["Proofs/ExactP.v", "Proofs/AbsentP.v"], rule=ENGINE_RULE,
